@@ -129,7 +129,7 @@ Theorem C07_referral_progress :
   pop_last cands = Some (candidate, rest) ->
   resolve_hostname_to_ip cache cache_get zs pmode rec stack locally candidate st = (Val (Some a), st1) ->
   query_and_validate cache o (a, port) q mc st1 = (Val (Some nr), st2) ->
-  resolve_with_nameserver_response cache cache_insert_all rec stack combined nr q st2 = (Val (inr d), st3) ->
+  resolve_with_nameserver_response cache cache_insert_all zs rec stack combined nr q st2 = (Val (inr d), st3) ->
   candidate_step cache cache_get cache_insert_all sort_names zs o pmode port rec loop stack q combined mc cands next locally st
   = loop (ns_match_count d) (sort_names (ns_hostnames d)) [] true st3
   /\ mc < ns_match_count d
